@@ -335,6 +335,56 @@ def check_invariants(ctx, facts):
     else:
         ctx.violate("C18.2", F, "initial-segment-leader-missing", ap.relfile, ap.line, "CreateTopic does not record a leader for segment 1")
 
+    check_all_or_nothing(ctx, facts, ap, F)
+
+
+def check_all_or_nothing(ctx, facts, ap, F):
+    """(8) a command is applied completely or rejected without a trace: no exit of apply that returns Err is reachable
+    after the first change to the state (a store to a field of TopicState / ClusterState, or insert / push / remove /
+    retain / clear / extend on one of its collections)."""
+    muts = []
+    for site, st in ap.assigns():
+        p_ = st["place"]
+        if any(e == "*" for e in p_["p"]) and p_["p"] and isinstance(p_["p"][-1], dict) and re.search(r"(TopicState|ClusterState)$", str(p_["p"][-1].get("o") or "")):
+            muts.append((site.bb, site.line, "store to %s" % p_["p"][-1].get("n")))
+    for c in ap.calls(re.compile(r"(HashMap|BTreeMap|HashSet|BTreeSet|Vec|VecDeque)(::<[^>]*>)?::(insert|push|push_back|remove|retain|clear|extend|pop|truncate|drain|append)$")):
+        pr = provenance(ap, c.node["args"][0]) if c.node["args"] else set()
+        if any(o.kind == "field" and re.search(r"(TopicState|ClusterState)$", str(o.what[0])) for o in pr):
+            muts.append((c.bb, c.line, callee_name(c.node).split("::")[-1] + " on the state"))
+    # error exits: the blocks that build the Err the function returns
+    errs = []
+    for site, st in ap.assigns():
+        rv = st["rv"]
+        if rv["k"] == "agg" and rv.get("akind") == "adt" and rv.get("variant") == "Err" and "Result" in str(rv.get("name")):
+            # does this value reach the return place ?
+            l = st["place"]["l"]
+            if l == 0 and not st["place"]["p"]:
+                errs.append((site.bb, site.line))
+            else:
+                for s2, st2 in ap.assigns():
+                    if st2["place"]["l"] == 0 and not st2["place"]["p"] and st2["rv"]["k"] == "use" and op_local(st2["rv"]["op"]) == l:
+                        errs.append((site.bb, site.line))
+    for c in ap.calls(re.compile(r"::from_residual$")):
+        if c.node["dest"]["l"] == 0 and not c.node["dest"]["p"]:
+            errs.append((c.bb, c.line))
+    if not muts or not errs:
+        ctx.anchor_missing("C18.2", "state changes (%d) and error exits (%d) of Metadata::apply" % (len(muts), len(errs)))
+        return
+    bad = None
+    for mbb, mline, what in muts:
+        reach = ap.reachable_from([mbb])
+        for ebb, eline in errs:
+            if ebb in reach and ebb != mbb:
+                bad = bad or (mline, what, eline)
+            elif ebb == mbb and eline is not None and mline is not None and eline > mline:
+                bad = bad or (mline, what, eline)
+    if bad:
+        ctx.violate("C18.2", F, "command-rejected-after-state-change", ap.relfile, bad[2],
+                    "apply can return Err (line %s) after it has already changed the state (%s, line %s): the rejected command leaves a half-applied change behind - a sealed-segment "
+                    "entry for the still open segment, a count that the next accepted rollover overwrites" % (bad[2], bad[1], bad[0]))
+    else:
+        ctx.ok("C18.2", F, "(8) every Err exit of apply is taken before the first change to the state (%d change sites, %d error exits)" % (len(muts), len(errs)), ap.relfile, ap.line)
+
 
 def Site_of(s):
     return s
